@@ -64,6 +64,58 @@ theorem C05_by_length (d : DictFn) (bs : Bytes) (fin : Fin) (h : Header) (r : Na
     have h2 : ¬ bs.length < h.len := by omega
     simp [splitStep, hne, hlt, hh, hc, h1, h2]
 
+/-- `w` is the complete wire image of one message that decodes to `m`: a decodable header that
+    declares exactly `w`'s length, a command the dictionary knows, a body that decodes -/
+def Whole (d : DictFn) (w : Bytes) (m : Msg) : Prop :=
+  20 ≤ w.length ∧ ∃ h r, decodeHeader (w.take 20) = .ok h ∧ d.cmdRules h.app h.cmd = some r ∧
+    h.len = w.length ∧ decodeBody d h (w.drop 20) = .msg m
+
+/-- a complete message at the front of a stream is cut off exactly at its own end, whatever
+    follows it -/
+theorem splitStep_whole (d : DictFn) (w rest : Bytes) (fin : Fin) (m : Msg) (hw : Whole d w m) :
+    splitStep d (w ++ rest) fin = (MsgRes.msg m, w.length) := by
+  obtain ⟨h20, h, r, hh, hc, hl, hb⟩ := hw
+  have hne : ¬ (w ++ rest).isEmpty = true := by
+    intro e; have := List.isEmpty_iff.mp e
+    have : (w ++ rest).length = 0 := by rw [this]; rfl
+    rw [List.length_append] at this; omega
+  have ht : (w ++ rest).take 20 = w.take 20 := by
+    rw [List.take_append_of_le_length h20]
+  have hd : ((w ++ rest).drop 20).take (h.len - 20) = w.drop 20 := by
+    rw [List.drop_append_of_le_length h20, hl]
+    have : (w.drop 20).length = w.length - 20 := by simp
+    rw [List.take_append_of_le_length (by omega)]
+    exact List.take_of_length_le (by omega)
+  have hlen : ¬ (w ++ rest).length < 20 := by rw [List.length_append]; omega
+  have hlen2 : ¬ (w ++ rest).length < h.len := by rw [List.length_append]; omega
+  have hl20 : ¬ h.len < 20 := by omega
+  simp only [splitStep, hne, hlen, ht, hh, hc, hl20, hlen2, hd, hb, if_false]
+  simp [hl]
+
+/-- **No message of a stream is lost, merged with its neighbour or delivered twice.** The
+    concatenation of any number of complete messages, followed by the end of the stream, is cut
+    into exactly those messages, in order, then end-of-file; every byte is accounted for. With
+    `C05_split` this holds for the reader loop over every fragmentation of that stream. -/
+theorem C05_concat (d : DictFn) (wms : List (Bytes × Msg)) (hw : ∀ p ∈ wms, Whole d p.1 p.2) :
+    split d (wms.length + 1) (wms.map Prod.fst).flatten .eof =
+      (wms.map (fun p => MsgRes.msg p.2) ++ [MsgRes.eof], (wms.map Prod.fst).flatten.length) := by
+  induction wms with
+  | nil => simp [split, splitStep]
+  | cons p ps ih =>
+    have hp := hw p (List.mem_cons_self)
+    have hps : ∀ q ∈ ps, Whole d q.1 q.2 := fun q hq => hw q (List.mem_cons_of_mem _ hq)
+    have ih' := ih hps
+    simp only [List.map_cons, List.flatten_cons, List.length_cons]
+    rw [split, splitStep_whole d p.1 _ .eof p.2 hp]
+    simp only [List.drop_left, ih', List.cons_append, List.length_append]
+
+/-- the reader loop over any fragmentation of such a stream delivers exactly those messages -/
+theorem C05_concat_reads (d : DictFn) (wms : List (Bytes × Msg)) (hw : ∀ p ∈ wms, Whole d p.1 p.2)
+    (s : Src) (hs : s.wf) (hb : s.bytes = (wms.map Prod.fst).flatten) (hf : s.fin = .eof) :
+    readAll d (wms.length + 1) s =
+      (wms.map (fun p => MsgRes.msg p.2) ++ [MsgRes.eof], (wms.map Prod.fst).flatten.length) := by
+  rw [C05_split d _ s hs, hb, hf, C05_concat d wms hw]
+
 /-- (reads that return bytes and an error together) `io.ReadFull`, which `readHeader` and
     `readBodyBytes` use (`C05_fill_gen`), adds what a Read returned before it looks at the error:
     whenever the bytes the transport delivers - up to and including the call that reports the end
@@ -99,5 +151,15 @@ theorem C05_gen : Gen.HeaderLength = 20 ∧ Gen.MessageBufferLength = 1024 ∧
 example : (Src.mk [[1,0,0,20,0x80,0,1,1, 0,0,0,0, 0,0,0,1, 0,0,0,2, 9,9,9,9]] .eof).wf ∧
     (Src.mk [[1],[0,0,20,0x80,0,1,1, 0,0,0,0, 0,0,0,1, 0,0,0],[2, 9,9],[9,9]] .eof).wf := by
   constructor <;> (intro f hf; simp at hf; rcases hf with rfl | rfl | rfl | rfl <;> simp)
+
+
+/-- non-vacuity of `C05_concat`: a 20-byte message is `Whole`, so two of them in a row are cut
+    into two messages -/
+example : ∃ m, Whole ⟨fun _ _ _ => 0, fun _ _ => some (1, 1)⟩
+    [1,0,0,20,0x80,0,1,1, 0,0,0,0, 0,0,0,1, 0,0,0,2] m := by
+  refine ⟨{ hdr := ⟨1, 20, 128, 257, 0, 1, 2⟩, avps := [] }, by decide,
+    ⟨1, 20, 128, 257, 0, 1, 2⟩, (1, 1), ?_, rfl, rfl, ?_⟩
+  · decide
+  · simp [decodeBody, decodeAVPs, isRequest]
 
 end DV.Props.C05
